@@ -145,6 +145,97 @@ def part(fw):
     return json.loads(p.stdout)
 
 
+
+# ---- AST side: the expressions that ANNOUNCE and ENFORCE the receive limit, and the drain order of the asyncio adapter ----
+import ast
+
+
+def _func(tree, cls, fn):
+    for n in tree.body:
+        if isinstance(n, ast.ClassDef) and n.name == cls:
+            for m in n.body:
+                if isinstance(m, ast.FunctionDef) and m.name == fn:
+                    return m
+    raise TranslatorError(f"{cls}.{fn} not found")
+
+
+def _is_self_attr(n, attr):
+    return isinstance(n, ast.Attribute) and isinstance(n.value, ast.Name) and n.value.id == "self" and n.attr == attr
+
+
+class _Expr:
+    """tiny expression language over m = self._max_message_size; anything else -> TranslatorError (fail closed)"""
+    def __init__(self, fn):
+        self.assign = {}
+        for n in ast.walk(fn):
+            if isinstance(n, ast.Assign) and len(n.targets) == 1 and isinstance(n.targets[0], ast.Name):
+                self.assign.setdefault(n.targets[0].id, []).append(n.value)
+
+    def coq(self, e, depth=0):
+        need(depth < 8, "expression too deep")
+        if _is_self_attr(e, "_max_message_size"):
+            return "m"
+        if isinstance(e, ast.Constant) and type(e.value) is int and e.value >= 0:
+            return str(e.value)
+        if isinstance(e, ast.Name):
+            vals = self.assign.get(e.id)
+            need(vals is not None and len(vals) == 1, f"variable {e.id} is not assigned exactly once")
+            return self.coq(vals[0], depth + 1)
+        if isinstance(e, ast.BinOp) and isinstance(e.op, ast.Pow) and isinstance(e.left, ast.Constant) and e.left.value == 2:
+            return "(2 ^ %s)" % self.coq(e.right, depth + 1)
+        if isinstance(e, ast.BinOp) and isinstance(e.op, ast.Sub):
+            return "(%s - %s)" % (self.coq(e.left, depth + 1), self.coq(e.right, depth + 1))
+        if isinstance(e, ast.BinOp) and isinstance(e.op, ast.Add):
+            return "(%s + %s)" % (self.coq(e.left, depth + 1), self.coq(e.right, depth + 1))
+        # int(math.ceil(math.log(X, 2)))   (exact = N.log2_up on 512..2^24: re-checked against the interpreter on every run)
+        if (isinstance(e, ast.Call) and isinstance(e.func, ast.Name) and e.func.id == "int" and len(e.args) == 1
+                and isinstance(e.args[0], ast.Call) and ast.unparse(e.args[0].func) == "math.ceil" and len(e.args[0].args) == 1):
+            lg = e.args[0].args[0]
+            if (isinstance(lg, ast.Call) and ast.unparse(lg.func) == "math.log" and len(lg.args) == 2
+                    and isinstance(lg.args[1], ast.Constant) and lg.args[1].value == 2):
+                return "(N.log2_up %s)" % self.coq(lg.args[0], depth + 1)
+        raise TranslatorError("unrecognised expression: " + ast.unparse(e))
+
+
+def _limit_exprs(tree, cls, fn, octet_var):
+    f = _func(tree, cls, fn)
+    ex = _Expr(f)
+    enforced = [n.value for n in ast.walk(f) if isinstance(n, ast.Assign) and len(n.targets) == 1 and _is_self_attr(n.targets[0], "MAX_LENGTH")]
+    need(len(enforced) == 1, f"{cls}.{fn}: self.MAX_LENGTH assigned {len(enforced)} times")
+    octs = ex.assign.get(octet_var)
+    need(octs is not None and len(octs) == 1, f"{cls}.{fn}: {octet_var} not assigned exactly once")
+    o = octs[0]      # bytes(bytearray([ ((E - 9) << 4) | self._serializer.RAWSOCKET_SERIALIZER_ID ]))
+    need(isinstance(o, ast.Call) and ast.unparse(o.func) == "bytes" and len(o.args) == 1 and isinstance(o.args[0], ast.Call)
+         and ast.unparse(o.args[0].func) == "bytearray" and len(o.args[0].args) == 1 and isinstance(o.args[0].args[0], ast.List)
+         and len(o.args[0].args[0].elts) == 1, f"{cls}.{fn}: unexpected shape of {octet_var}: {ast.unparse(o)}")
+    b = o.args[0].args[0].elts[0]
+    need(isinstance(b, ast.BinOp) and isinstance(b.op, ast.BitOr) and isinstance(b.left, ast.BinOp) and isinstance(b.left.op, ast.LShift)
+         and isinstance(b.left.right, ast.Constant) and b.left.right.value == 4
+         and ast.unparse(b.right) == "self._serializer.RAWSOCKET_SERIALIZER_ID", f"{cls}.{fn}: unexpected octet expression {ast.unparse(b)}")
+    return ex.coq(enforced[0]), ex.coq(b.left.left)
+
+
+def ast_part():
+    base = os.path.join(repo(), "src", "autobahn")
+    tw = ast.parse(open(os.path.join(base, "twisted", "rawsocket.py")).read())
+    out = {}
+    out["tx_server"] = _limit_exprs(tw, "WampRawSocketServerProtocol", "dataReceived", "reply_octet2")
+    out["tx_client"] = _limit_exprs(tw, "WampRawSocketClientProtocol", "connectionMade", "request_octet2")
+    # asyncio WebSocket adapter: which end of the receive deque the drain loop takes
+    aw = ast.parse(open(os.path.join(base, "asyncio", "websocket.py")).read())
+    cons = _func(aw, "WebSocketAdapterProtocol", "_consume")
+    calls = [n for n in ast.walk(cons) if isinstance(n, ast.Call) and isinstance(n.func, ast.Attribute)
+             and _is_self_attr(n.func.value, "receive_queue")]
+    need(len(calls) == 1 and not calls[0].args and not calls[0].keywords, "WebSocketAdapterProtocol._consume: receive_queue use not recognised")
+    need(calls[0].func.attr in ("popleft", "pop"), f"receive_queue.{calls[0].func.attr}() not recognised")
+    out["aio_pop_front"] = calls[0].func.attr == "popleft"
+    dr = _func(aw, "WebSocketAdapterProtocol", "data_received")
+    apps = [n for n in ast.walk(dr) if isinstance(n, ast.Call) and isinstance(n.func, ast.Attribute) and _is_self_attr(n.func.value, "receive_queue")]
+    need(len(apps) == 1 and apps[0].func.attr in ("append", "appendleft") and len(apps[0].args) == 1, "data_received: receive_queue use not recognised")
+    out["aio_push_back"] = apps[0].func.attr == "append"
+    return out
+
+
 def render():
     tx, aio = part("tx"), part("aio")
     for k in ("rows", "ws_protocols", "ws_ids", "codes"):
@@ -185,6 +276,17 @@ def render():
     w("Definition gen_close_internal_error : N := %d." % codes["internal"])
     w("Definition gen_close_normal : N := %d." % codes["normal"])
     w("Definition gen_close_going_away : N := %d." % codes["going_away"])
+    a = ast_part()
+    w("")
+    w("(* Twisted RawSocket: the receive limit each role ENFORCES (self.MAX_LENGTH = ...) and the exponent nibble it ANNOUNCES")
+    w("   (high nibble of handshake octet 2), as functions of m = factory maxMessagePayloadSize; translated from the source text *)")
+    for role in ("server", "client"):
+        enf, ann = a["tx_" + role]
+        w("Definition gen_tx_%s_recv_limit (m : N) : N := %s." % (role, enf))
+        w("Definition gen_tx_%s_announce_nibble (m : N) : N := %s." % (role, ann))
+    w("(* asyncio WebSocket adapter: data_received pushes at the back / _consume drains from the front of receive_queue *)")
+    w("Definition gen_aio_ws_push_back : bool := %s." % ("true" if a["aio_push_back"] else "false"))
+    w("Definition gen_aio_ws_pop_front : bool := %s." % ("true" if a["aio_pop_front"] else "false"))
     return "\n".join(out) + "\n"
 
 
